@@ -3,6 +3,7 @@ package tr
 
 import (
 	"bufio"
+	"bytes"
 	"encoding/json"
 	"io"
 	"os"
@@ -30,11 +31,47 @@ func NewWriter(path string) (*Writer, error) {
 	return &Writer{w: bufio.NewWriterSize(f, 1<<20), f: f}, nil
 }
 
-func (w *Writer) Emit(ev Ev) {
+// marshal encodes an event without JSON nulls (TLC's Json module rejects them):
+// every null becomes an empty array.
+func marshal(ev Ev) []byte {
 	b, err := json.Marshal(ev)
 	if err != nil {
 		panic(err)
 	}
+	if !bytes.Contains(b, []byte("null")) {
+		return b
+	}
+	var v interface{}
+	if err := json.Unmarshal(b, &v); err != nil {
+		panic(err)
+	}
+	b, err = json.Marshal(scrub(v))
+	if err != nil {
+		panic(err)
+	}
+	return b
+}
+
+func scrub(v interface{}) interface{} {
+	switch x := v.(type) {
+	case nil:
+		return []interface{}{}
+	case map[string]interface{}:
+		for k, e := range x {
+			x[k] = scrub(e)
+		}
+		return x
+	case []interface{}:
+		for i, e := range x {
+			x[i] = scrub(e)
+		}
+		return x
+	}
+	return v
+}
+
+func (w *Writer) Emit(ev Ev) {
+	b := marshal(ev)
 	w.mu.Lock()
 	w.w.Write(b)
 	w.w.WriteByte('\n')
@@ -45,10 +82,7 @@ func (w *Writer) Emit(ev Ev) {
 func (w *Writer) EmitAll(evs []Ev) {
 	w.mu.Lock()
 	for _, ev := range evs {
-		b, err := json.Marshal(ev)
-		if err != nil {
-			panic(err)
-		}
+		b := marshal(ev)
 		w.w.Write(b)
 		w.w.WriteByte('\n')
 	}
